@@ -5,16 +5,12 @@
 //! Exit codes: 0 held on everything explored; 1 violation (prints VIOLATION line);
 //! 2 infrastructure problem / inconclusive.
 
-mod driver;
-mod e1;
-mod e2;
-mod formats;
-mod host;
-mod mach;
-mod props;
-mod tape;
 
-use driver::{Run, Tier};
+use rzxv::driver::{self, Run, Tier};
+use rzxv::{alloc, props};
+
+#[global_allocator]
+static GLOBAL: alloc::Counting = alloc::Counting;
 
 macro_rules! dispatch {
     ($id:expr, $run:expr, $replay:expr, $( $name:literal => $m:ident ),* $(,)?) => {
@@ -147,6 +143,7 @@ fn real_main() -> i32 {
         "C12" => c12,
         "C13" => c13,
         "C14" => c14,
+        "C15" => c15,
         "C17" => c17,
         "C20" => c20,
     )
